@@ -133,6 +133,9 @@ Qed.
 
 Ltac bfacts :=
   repeat match goal with
+  | H : bdecode_lim _ = BOk _ _ _ |- _ => apply bdecode_lim_ok in H; destruct H as [H _]
+  end;
+  repeat match goal with
   | H : bdecode _ = BOk _ _ _ |- _ => apply bdecode_ok in H
   end.
 
